@@ -23,7 +23,8 @@ from gin import config_parser
 TokenInfo = _tk.TokenInfo
 TYPES = {'OP': _tk.OP, 'NUMBER': _tk.NUMBER, 'STRING': _tk.STRING, 'NAME': _tk.NAME,
          'NL': _tk.NL, 'COMMENT': _tk.COMMENT, 'NEWLINE': _tk.NEWLINE,
-         'ENDMARKER': _tk.ENDMARKER, 'INDENT': _tk.INDENT, 'DEDENT': _tk.DEDENT}
+         'ENDMARKER': _tk.ENDMARKER, 'INDENT': _tk.INDENT, 'DEDENT': _tk.DEDENT,
+         'ERRORTOKEN': _tk.ERRORTOKEN}
 TokenError = _tk.TokenError
 
 
@@ -62,6 +63,24 @@ def real_tokens(text):
   return out, exc
 
 
+def as_real_312(emitted):
+  """The (type name, string) list the tokenizer of Python 3.12 produces for a stream handed out by the stub.
+
+  Identical except for characters that are no Python token ('$', '?', '`'): the pure-Python tokenizer of
+  Python <= 3.11 reported ERRORTOKEN ' ' for each blank before such a character and ERRORTOKEN <char> for the
+  character itself (the stub's 'ERR' kinds follow that contract, which gin's _advance_one_token is written
+  for); the C tokenizer of 3.12 reports a plain OP <char> and nothing for the blanks.
+  """
+  out = []
+  for typ, s in emitted:
+    if typ == 'ERRORTOKEN':
+      if s in (' ', '\t'):
+        continue
+      typ = 'OP'
+    out.append((typ, s))
+  return out
+
+
 class Writer:
   """Hands out TokenInfos with consistent positions and keeps the rendered text."""
 
@@ -92,6 +111,12 @@ class Writer:
     end = (self.row, len(self.cur))
     self.emitted.append((typ, string))
     return TokenInfo(TYPES[typ], string, start, end, self.cur if line is None else line)
+
+  def raw(self, string, gap=1):
+    """Text that reaches the tokenizer but never becomes a token (the tokenizer raises on it)."""
+    if self.cur:
+      self.cur += ' ' * gap
+    self.cur += string
 
   def text(self):
     return ''.join(self.done) + self.cur
